@@ -288,7 +288,11 @@ Inductive op :=
 | OMuxClearGroup (u : nat) (g : Z)
 | OMuxClearAll (u : nat)
 | OMuxShiftL (u x : nat) (a : Z)
-| OMuxShiftR (u x : nat) (a : Z).
+| OMuxShiftR (u x : nat) (a : Z)
+(* operations whose outcome depends on objects outside the model / that touch names only *)
+| OResizeBus (m : nat) (bytes lim : Z)      (* UpdateSizeByte of a message sent by a node interface whose bus
+                                              allows at most lim bytes (CAN 2.0A: 8) *)
+| ORename (x : nat).                        (* Signal.UpdateName(a name no live signal carries) *)
 
 Definition vsig (s : state) (x : nat) : bool := (x <? nsig s)%nat.
 Definition vmsg (s : state) (m : nat) : bool := (m <? nmsg s)%nat.
@@ -345,6 +349,16 @@ Definition step_resize (s : state) (m : nat) (n : Z) : state * result :=
        | Some c => (s, RErr c)
        | None => (set_gbytes (set_glsize s (upd (glsize s) m (n * 8))) (upd (gbytes s) m n), ROk)
        end.
+
+(* UpdateSizeByte for a message that has a sender interface attached to a bus: nodes, interfaces and
+   buses are outside the model, the size limit in force (Bus.verifyMessageSize) is an input of the
+   operation. The bus is asked after the three local checks and before the layout is touched. *)
+Definition step_resize_bus (s : state) (m : nat) (n lim : Z) : state * result :=
+  if n <? 0 then (s, RErr Negative)
+  else if gbytes s m =? n then (s, ROk)
+  else if 2 ^ 60 - 1 <? n then (s, RErr TooBig)
+  else if lim <? n then (s, RErr TooBig)                 (* refused by the bus: nothing changes *)
+  else step_resize s m n.
 
 (* --- signals ------------------------------------------------------------------------------ *)
 
@@ -654,6 +668,10 @@ Definition step (s : state) (o : op) : state * result :=
   | OMuxClearAll u => if vmux s u then step_mux_clear_all s u else (s, RInvalid)
   | OMuxShiftL u x a => if vmux s u then step_mux_shift true s u x a else (s, RInvalid)
   | OMuxShiftR u x a => if vmux s u then step_mux_shift false s u x a else (s, RInvalid)
+  | OResizeBus m n lim => if vmsg s m then step_resize_bus s m n lim else (s, RInvalid)
+  (* names are unique (see the header): the new name clashes with nothing, and the name tables are
+     kept as sets of handles, so renaming changes no field *)
+  | ORename x => if vsig s x then (s, ROk) else (s, RInvalid)
   end.
 
 Definition run (ops : list op) : state := fold_left (fun s o => fst (step s o)) ops init.
